@@ -424,3 +424,7 @@ mod tests {
         assert_eq!(pseudo_scratch, retry::example::PSEUDO_PACKET);
     }
 }
+
+#[cfg(all(aws_s2n_quic_verif, test))]
+#[path = "/verif/harness/core/packet_retry.rs"]
+mod verif;
